@@ -133,7 +133,9 @@ class ExpectedResponse(asyncio.Future):
                 except AttributeError:
                     return False
                 else:
-                    return expected_value(actual_value)
+                    if not expected_value(actual_value):
+                        return False
+                    continue
 
             if getattr(response, fname, None) != expected_value:
                 return False
